@@ -66,7 +66,10 @@ def run_property(prop: str, tier: str, repo_root: str = None) -> int:
         ctx.note(f"decided on the normal form `{what}` of the tree (the rules did not succeed on `{first[3]}`: "
                  f"{'analysis error: ' + str(first[1])[:120] if first[1] is not None else str(unlisted_findings(first[0])) + ' findings'})")
     if err is not None:
-        raise err
+        if unlisted_findings(ctx) == 0:
+            raise err
+        # violations were established before the analysis stopped: they are reported (exit 1); the analysis error is shown as well
+        print(f"ANALYSIS-NOTE property={prop} the analysis stopped early ({str(err)[:160]}); the violations found before that point are reported")
     repo = ctx.repo
     st_ok, st_lines = True, []
     if tier == "thorough" and not os.environ.get("VERIF_NO_SELFTEST"):
